@@ -68,6 +68,8 @@ pub enum P {
     Frame(ThreadLocalCtxtFrame),
     Macro2(MacroHolder<2>),
     Macro3(MacroHolder<3>),
+    Macro18(MacroHolder<18>),
+    Macro34(MacroHolder<34>),
 }
 
 macro_rules! with_p {
@@ -195,6 +197,14 @@ macro_rules! with_p {
                 let $p: &MacroProps<3> = &x.props;
                 $body
             }
+            P::Macro18(x) => {
+                let $p: &MacroProps<18> = &x.props;
+                $body
+            }
+            P::Macro34(x) => {
+                let $p: &MacroProps<34> = &x.props;
+                $body
+            }
         }
     };
 }
@@ -264,14 +274,29 @@ pub fn macro_model(shape: u8, vals: &[Val]) -> Vec<Kv> {
         }
         3 => vec![("b".into(), v(1)), ("c".into(), v(2))],
         4 => vec![("z".into(), v(0)), ("b".into(), v(1))],
-        _ => vec![("a.b".into(), v(0)), ("b".into(), v(1))],
+        5 => vec![("a.b".into(), v(0)), ("b".into(), v(1))],
+        // wide sites (size thresholds): 18 keys with two reordering renames, 34 keys with three, 18 plain keys
+        6 => vec![("c00".into(), v(0)), ("c01".into(), v(1)), ("c02".into(), v(2)), ("zz".into(), v(3)), ("c04".into(), v(0)), ("c05".into(), v(1)), ("c06".into(), v(2)), ("c07".into(), v(3)), ("c08".into(), v(0)), ("c09".into(), v(1)), ("c10".into(), v(2)), ("c11".into(), v(3)), ("c12".into(), v(0)), ("c13".into(), v(1)), ("c14".into(), v(2)), ("a".into(), v(3)), ("c16".into(), v(0)), ("c17".into(), v(1))],
+        7 => vec![("m".into(), v(0)), ("c01".into(), v(1)), ("c02".into(), v(2)), ("c03".into(), v(3)), ("c04".into(), v(0)), ("c05".into(), v(1)), ("c06".into(), v(2)), ("c07".into(), v(3)), ("c08".into(), v(0)), ("c09".into(), v(1)), ("c10".into(), v(2)), ("c11".into(), v(3)), ("c12".into(), v(0)), ("c13".into(), v(1)), ("c14".into(), v(2)), ("c15".into(), v(3)), ("c16".into(), v(0)), ("c17".into(), v(1)), ("c18".into(), v(2)), ("c19".into(), v(3)), ("b.b".into(), v(0)), ("c21".into(), v(1)), ("c22".into(), v(2)), ("c23".into(), v(3)), ("c24".into(), v(0)), ("c25".into(), v(1)), ("c26".into(), v(2)), ("c27".into(), v(3)), ("c28".into(), v(0)), ("c29".into(), v(1)), ("c30".into(), v(2)), ("c31".into(), v(3)), ("c32".into(), v(0)), ("c05x".into(), v(1))],
+        8 => vec![("c00".into(), v(0)), ("c01".into(), v(1)), ("c02".into(), v(2)), ("c03".into(), v(3)), ("c04".into(), v(0)), ("c05".into(), v(1)), ("c06".into(), v(2)), ("c07".into(), v(3)), ("c08".into(), v(0)), ("c09".into(), v(1)), ("c10".into(), v(2)), ("c11".into(), v(3)), ("c12".into(), v(0)), ("c13".into(), v(1)), ("c14".into(), v(2)), ("c15".into(), v(3)), ("c16".into(), v(0)), ("c17".into(), v(1))],
+        _ => unreachable!(),
     }
 }
 
-pub const MACRO_SHAPES: u8 = 6;
-/// shapes whose renamed key sorts differently from its identifier (defect D1 on the pinned tree)
+pub const MACRO_SHAPES: u8 = 9;
+/// number of array elements of a shape (class labels for size thresholds)
+pub fn macro_shape_len(shape: u8) -> usize {
+    match shape % MACRO_SHAPES {
+        1 => 3,
+        6 | 8 => 18,
+        7 => 34,
+        _ => 2,
+    }
+}
+
+/// shapes whose renamed key sorts differently from its identifier (defect D1, fixed by 20d44db)
 pub fn macro_shape_reorders(shape: u8) -> bool {
-    shape % MACRO_SHAPES == 4
+    matches!(shape % MACRO_SHAPES, 4 | 6 | 7)
 }
 
 fn build_macro(shape: u8, vals: &[Val]) -> P {
@@ -319,13 +344,99 @@ fn build_macro(shape: u8, vals: &[Val]) -> P {
             },
             _vals: owner,
         }),
-        _ => P::Macro2(MacroHolder {
+        5 => P::Macro2(MacroHolder {
             props: emit::props! {
                 #[emit::key("a.b")] #[emit::as_value] a: r[0],
                 #[emit::as_value] b: r[1],
             },
             _vals: owner,
         }),
+        6 => P::Macro18(MacroHolder {
+            props: emit::props! {
+                #[emit::as_value] c00: r[0],
+                #[emit::as_value] c01: r[1],
+                #[emit::as_value] c02: r[2],
+                #[emit::key("zz")] #[emit::as_value] c03: r[3],
+                #[emit::as_value] c04: r[0],
+                #[emit::as_value] c05: r[1],
+                #[emit::as_value] c06: r[2],
+                #[emit::as_value] c07: r[3],
+                #[emit::as_value] c08: r[0],
+                #[emit::as_value] c09: r[1],
+                #[emit::as_value] c10: r[2],
+                #[emit::as_value] c11: r[3],
+                #[emit::as_value] c12: r[0],
+                #[emit::as_value] c13: r[1],
+                #[emit::as_value] c14: r[2],
+                #[emit::key("a")] #[emit::as_value] c15: r[3],
+                #[emit::as_value] c16: r[0],
+                #[emit::as_value] c17: r[1],
+            },
+            _vals: owner,
+        }),
+        7 => P::Macro34(MacroHolder {
+            props: emit::props! {
+                #[emit::key("m")] #[emit::as_value] c00: r[0],
+                #[emit::as_value] c01: r[1],
+                #[emit::as_value] c02: r[2],
+                #[emit::as_value] c03: r[3],
+                #[emit::as_value] c04: r[0],
+                #[emit::as_value] c05: r[1],
+                #[emit::as_value] c06: r[2],
+                #[emit::as_value] c07: r[3],
+                #[emit::as_value] c08: r[0],
+                #[emit::as_value] c09: r[1],
+                #[emit::as_value] c10: r[2],
+                #[emit::as_value] c11: r[3],
+                #[emit::as_value] c12: r[0],
+                #[emit::as_value] c13: r[1],
+                #[emit::as_value] c14: r[2],
+                #[emit::as_value] c15: r[3],
+                #[emit::as_value] c16: r[0],
+                #[emit::as_value] c17: r[1],
+                #[emit::as_value] c18: r[2],
+                #[emit::as_value] c19: r[3],
+                #[emit::key("b.b")] #[emit::as_value] c20: r[0],
+                #[emit::as_value] c21: r[1],
+                #[emit::as_value] c22: r[2],
+                #[emit::as_value] c23: r[3],
+                #[emit::as_value] c24: r[0],
+                #[emit::as_value] c25: r[1],
+                #[emit::as_value] c26: r[2],
+                #[emit::as_value] c27: r[3],
+                #[emit::as_value] c28: r[0],
+                #[emit::as_value] c29: r[1],
+                #[emit::as_value] c30: r[2],
+                #[emit::as_value] c31: r[3],
+                #[emit::as_value] c32: r[0],
+                #[emit::key("c05x")] #[emit::as_value] c33: r[1],
+            },
+            _vals: owner,
+        }),
+        8 => P::Macro18(MacroHolder {
+            props: emit::props! {
+                #[emit::as_value] c00: r[0],
+                #[emit::as_value] c01: r[1],
+                #[emit::as_value] c02: r[2],
+                #[emit::as_value] c03: r[3],
+                #[emit::as_value] c04: r[0],
+                #[emit::as_value] c05: r[1],
+                #[emit::as_value] c06: r[2],
+                #[emit::as_value] c07: r[3],
+                #[emit::as_value] c08: r[0],
+                #[emit::as_value] c09: r[1],
+                #[emit::as_value] c10: r[2],
+                #[emit::as_value] c11: r[3],
+                #[emit::as_value] c12: r[0],
+                #[emit::as_value] c13: r[1],
+                #[emit::as_value] c14: r[2],
+                #[emit::as_value] c15: r[3],
+                #[emit::as_value] c16: r[0],
+                #[emit::as_value] c17: r[1],
+            },
+            _vals: owner,
+        }),
+        _ => unreachable!(),
     }
 }
 
